@@ -17,7 +17,7 @@ WORKERS = int(os.environ.get("VERIF_WORKERS", "8"))
 
 
 class Slice:
-    def __init__(self, name, terminals, ops, maxnodes, lits=(), zeros=(), idx=(10, 11), maxrank=2, maxdim=2, finalops=(), gdim=2, nenv=2, complex_env=False, small=False, simulate=None, depth=None, square_gram=(), tiny=False, levels=(), only_final=False, mikinds=("fixed", "name", "slice")):
+    def __init__(self, name, terminals, ops, maxnodes, lits=(), zeros=(), idx=(10, 11), maxrank=2, maxdim=2, finalops=(), gdim=2, nenv=2, complex_env=False, small=False, simulate=None, depth=None, square_gram=(), tiny=False, levels=(), only_final=False, mikinds=("fixed", "name", "slice"), replacements=()):
         self.name = name
         self.terminals = terminals
         self.ops = set(ops)
@@ -39,6 +39,7 @@ class Slice:
         self.levels = [set(l) for l in levels]
         self.only_final = only_final
         self.mikinds = tuple(mikinds)
+        self.replacements = list(replacements)
         for l in self.levels:
             self.ops |= l - self.finalops
 
@@ -83,8 +84,10 @@ def run_slice(ctx, sl, pid, on_mismatch=None, accept=None, timeout=1500):
 
 def _tlc_phase(seed, sl, timeout, workers):
     pool = Pool(sl.terminals, nenv=sl.nenv, seed=seed + hash_name(sl.name), complex_env=sl.complex_env, small=sl.small, square_gram=sl.square_gram, tiny=sl.tiny)
+    for src, img in sl.replacements:
+        pool.add_replacement(src, img)
     name = "MC_" + sl.name.replace("-", "_")
-    mc = replay.mc_module(name, pool, sl.lits, sl.zeros, sl.idx, sl.ops | sl.finalops, sl.maxnodes, sl.maxrank, sl.maxdim, sl.finalops, sl.levels)
+    mc = replay.mc_module(name, pool, sl.lits, sl.zeros, sl.idx, sl.ops | sl.finalops, sl.maxnodes, sl.maxrank, sl.maxdim, sl.finalops, sl.levels, getattr(pool, "replmaps", ()))
     cfg = replay.mc_cfg(pool, sl.maxnodes, sl.maxrank, sl.maxdim, final_only=sl.only_final, mikinds=sl.mikinds)
     kw = {}
     if sl.simulate:
@@ -180,6 +183,7 @@ def slice_json(sl):
         "gdim": sl.gdim,
         "nenv": sl.nenv,
         "complex_env": sl.complex_env,
+        "replacements": [[src, list(img)] for src, img in sl.replacements],
     }
 
 
@@ -190,6 +194,8 @@ def replay_doc(ctx, doc, pid):
     from .scalar import Cx
 
     pool = Pool([(n, tuple(sh)) for n, sh in s["terminals"]], nenv=s["nenv"], seed=0, complex_env=s["complex_env"])
+    for src, img in s.get("replacements", []):
+        pool.add_replacement(src, tuple(img))
     # restore the recorded environments exactly
     for e, env in enumerate(r["pool"]["values"]):
         for n, ents in env.items():
